@@ -25,6 +25,7 @@ META = {
 }
 META["explanation"] += '  e2e/*: real index.run (optionally as the second index run of the execution, on another build of the graph with the same segment names) followed by the real view.run -r on its output.'
 META["explanation"] += '  The second contig is called chr1-2 (a dash, and a prefix that is another contig); regions on a contig nothing is aligned to are part of the region lists.'
+META["explanation"] += "  In the run/* harnesses the record of the last node visits it twice, so its offset is listed twice in that node's entry."
 
 
 class AssocIndex:
@@ -328,6 +329,9 @@ def build(params):
             offs = [i * 10]
             if i == 0 or i == k - 1:
                 offs.append(k * 10)
+            if i == k - 1:
+                # record i visits its node twice (tandem duplication): gaftools index lists its offset once per visit
+                offs.insert(0, i * 10)
             items.append((("x%d" % i, "chr1", s, en), offs))
         items.append((("y0", "chr1-2", 3, 9), [(k + 1) * 10]))
         idx = AssocIndex(items + [("ref_contig", ["chr1"])])
@@ -420,9 +424,13 @@ def replay(params, model, wd):
         chain = [s for s in segs if s[1] == "chr1"]
         for x, y in zip(chain, chain[1:]):
             fh.write("L\t%s\t+\t%s\t+\t0M\n" % (x[0], y[0]))
+        fh.write("L\tx%d\t+\tx%d\t+\t0M\n" % (k - 1, k - 1))
     ln = {s[0]: s[3] for s in segs}
     lines = []
     for i in range(k):
+        if i == k - 1:
+            lines.append("r%d\t10\t0\t10\t+\t>x%d>x%d\t%d\t0\t%d\t10\t10\t60\tcg:Z:10=" % (i, i, i, 2 * ln["x%d" % i], ln["x%d" % i]))
+            continue
         lines.append("r%d\t10\t0\t10\t+\t>x%d\t%d\t0\t%d\t10\t10\t60\tcg:Z:10=" % (i, i, ln["x%d" % i], ln["x%d" % i]))
     lines.append("r%d\t10\t0\t10\t+\t>x0<x%d\t%d\t0\t1\t10\t10\t60\tcg:Z:10=" % (k, k - 1, ln["x0"] + ln["x%d" % (k - 1)]))
     lines.append("r%d\t10\t0\t10\t+\t>y0\t6\t0\t6\t10\t10\t60\tcg:Z:10=" % (k + 1))
